@@ -18,6 +18,7 @@ CONSTANTS
   MaxStops = 1
   MaxExpire = 1
   IgnoredStarts = FALSE
-  LateRace = FALSE
+  RaceFinder = FALSE
+  RaceBuffer = FALSE
 INVARIANTS DeliveredAscending Outcome AncestorCommon NeverBeyondTarget PeerConservation ConnQueueSane HashReqSane NoActorBlock
 CHECK_DEADLOCK FALSE
